@@ -83,6 +83,21 @@ def mutations(raw, rng, budget):
             ("doubled", raw + raw)]
     if n:
         core += [("first-byte-x", b"x" + raw[1:]), ("last-byte-x", raw[:-1] + b"x"), ("upper", raw.upper())]
+    # the structure of the line-based files (journals, config, HEAD, branch files): every separator byte of
+    # the first and of the last line deleted, replaced, and the file cut right before and right after it --
+    # the places where a hand-written splitter indexes into its pieces
+    if n and n < 4096 and b"\x00" not in raw[:64]:
+        lines = raw.split(b"\n")
+        spans, off = [], 0
+        for ln in lines:
+            spans.append((off, off + len(ln)))
+            off += len(ln) + 1
+        nonempty = [sp for sp in spans if sp[1] > sp[0]]
+        for a, b_ in ([nonempty[0]] + ([nonempty[-1]] if len(nonempty) > 1 else [])) if nonempty else []:
+            for i in range(a, b_):
+                if raw[i] in b" \t<>:=[]@{}/":
+                    core += [("sep-delete@%d" % i, raw[:i] + raw[i + 1:]), ("sep-x@%d" % i, raw[:i] + b"x" + raw[i + 1:]),
+                             ("sep-cut-before@%d" % i, raw[:i]), ("sep-cut-after@%d" % i, raw[:i + 1])]
     return core + out[:max(0, budget - len(core))]
 
 
